@@ -53,13 +53,22 @@ Local Open Scope list_scope.
 Open Scope Z_scope.
 
 Record tcfg := mk_tcfg { fx_init : bool; fx_float : bool; fx_fwd : bool; fx_ops : bool;
-                         fx_ru_generic : bool; fx_ru_phi : bool; fx_ru_call : bool }.
+                         fx_ru_generic : bool; fx_ru_phi : bool; fx_ru_call : bool;
+                         fx_copyblob : bool; fx_undef : bool; fx_volatile : bool }.
 (* the baseline code; the baseline + fixes/C15-*.diff (replace_use of ppci/ir.py as in the
    baseline); and the current code = all of them (replace_use repaired by the /repo commits
    2d6a9c1, e4350a7, 283ca09, found by the C16 check) *)
-Definition tcfg_orig := mk_tcfg false false false false false false false.
-Definition tcfg_noru := mk_tcfg true true true true false false false.
-Definition tcfg_fixed := mk_tcfg true true true true true true true.
+(* third group of switches (fixes/C15-copyblob-reader, C15-undefined-type, C15-volatile-marker.diff):
+     fx_copyblob  Reader.parse_statement reads "memcpy(dst, src, n)"      (orig: KeyError('memcpy'))
+     fx_undef     ir.Undefined prints its type "i32 x = undefined" and is read back
+                  (orig: "x = undefined", KeyError on the name)
+     fx_volatile  volatile loads / stores print the word volatile after the mnemonic and the reader
+                  takes it as the flag when another identifier follows  (orig: flag lost)
+   tcfg_w2 = the code before these three repairs, tcfg_fixed = everything repaired *)
+Definition tcfg_orig := mk_tcfg false false false false false false false false false false.
+Definition tcfg_noru := mk_tcfg true true true true false false false false false false.
+Definition tcfg_w2 := mk_tcfg true true true true true true true false false false.
+Definition tcfg_fixed := mk_tcfg true true true true true true true true true true.
 
 (* ------------------------------------------------------------------ tokens *)
 Inductive token :=
@@ -91,14 +100,14 @@ Inductive rinstr :=
   | RBinop (t : ty) (n a : string) (o : binop) (b : string)
   | RUnop (t : ty) (n : string) (o : unop) (a : string)
   | RCast (t : ty) (n a : string)
-  | RLoad (t : ty) (n a : string)
-  | RStore (x a : string)
+  | RLoad (t : ty) (n a : string) (vol : bool)
+  | RStore (x a : string) (vol : bool)
   | RAlloc (t : ty) (n : string) (size align : Z)
   | RAddrOf (t : ty) (n a : string)
   | RLit (t : ty) (n hex : string)
   | RCopyBlob (d s : string) (amount : Z)
   | RPhi (t : ty) (n : string) (ins : list (string * string))
-  | RUndef (n : string)
+  | RUndef (t : option ty) (n : string)
   | RCallF (t : ty) (n c : string) (args : list string)
   | RCallP (c : string) (args : list string)
   | RJump (b : string)
@@ -132,6 +141,7 @@ Definition sort_pairs (l : list (string * string)) := fold_right insert_pair [] 
 
 Section Erase.
 Variable fr : Z -> string.
+Variable c : tcfg.
 Definition erase_cst (c : cst) : rcst :=
   match c with CInt z => RInt z | CFloat b => RFloat (fr b) end.
 Definition erase_instr (f : func) (i : instr) : rinstr :=
@@ -142,14 +152,14 @@ Definition erase_instr (f : func) (i : instr) : rinstr :=
   | IBinop _ n t o a b => RBinop t n (rn a) o (rn b)
   | IUnop _ n t o a => RUnop t n o (rn a)
   | ICast _ n t a => RCast t n (rn a)
-  | ILoad _ n t a _ => RLoad t n (rn a)
-  | IStore x a _ => RStore (rn x) (rn a)
+  | ILoad _ n t a vol => RLoad t n (rn a) (fx_volatile c && vol)
+  | IStore x a vol => RStore (rn x) (rn a) (fx_volatile c && vol)
   | IAlloc _ n s al => RAlloc (Blob s al) n s al
   | IAddrOf _ n a => RAddrOf Ptr n (rn a)
   | ILit _ n d => RLit (Blob (len d) 1) n (hexlify d)
   | ICopyBlob d s n => RCopyBlob (rn d) (rn s) n
   | IPhi _ n t ins => RPhi t n (sort_pairs (map (fun p => (bn (fst p), rn (snd p))) ins))
-  | IUndef _ n _ => RUndef n
+  | IUndef _ n t => RUndef (if fx_undef c then Some t else None) n
   | ICallF _ n t c args => RCallF t n (rn c) (map rn args)
   | ICallP c args => RCallP (rn c) (map rn args)
   | IJump b => RJump (bn b)
@@ -164,13 +174,13 @@ Definition erase_func (f : func) : rfunc :=
            (map (erase_block f) (f_blocks f)).
 Definition erase_init (i : init) : rinit :=
   match i with InitBytes d => RBytes (hexlify d) | InitRef _ s => RRef s end.
-Definition erase_var (c : tcfg) (g : gvar) : rvar :=
+Definition erase_var (g : gvar) : rvar :=
   mk_rvar (g_binding g) (g_name g) (g_amount g) (g_align g)
           (if fx_init c then match g_value g with Some l => Some (map erase_init l) | None => None end
            else None).
-Definition erase (c : tcfg) (m : modul) : rmodul :=
+Definition erase (m : modul) : rmodul :=
   mk_rmodul (m_name m)
-    (map RExt (m_externals m) ++ map (fun g => RVar (erase_var c g)) (m_vars m)
+    (map RExt (m_externals m) ++ map (fun g => RVar (erase_var g)) (m_vars m)
      ++ map (fun f => RFunc (erase_func f)) (m_funcs m)).
 End Erase.
 
@@ -201,14 +211,15 @@ Definition l_cst (c : rcst) : ltok :=
 Definition l_assign (t : ty) (n : string) : list ltok := l_ty t ++ [LSp; K n; LSp; OP "="; LSp].
 Definition l_args (args : list string) : list ltok :=
   [OP "("] ++ join_comma (map (fun a => [K a]) args) ++ [OP ")"].
+Definition l_vol (vol : bool) : list ltok := if vol then [K "volatile"; LSp] else [].
 Definition l_instr (i : rinstr) : list ltok :=
   match i with
   | RConst t n c => l_assign t n ++ [l_cst c]
   | RBinop t n a o b => l_assign t n ++ [K a; LSp; l_binop o; LSp; K b]
   | RUnop t n o a => l_assign t n ++ [OP (unop_name o); LSp; K a]
   | RCast t n a => l_assign t n ++ [K "cast"; LSp; K a]
-  | RLoad t n a => l_assign t n ++ [K "load"; LSp; K a]
-  | RStore x a => [K "store"; LSp; K x; OP ","; LSp; K a]
+  | RLoad t n a vol => l_assign t n ++ [K "load"; LSp] ++ l_vol vol ++ [K a]
+  | RStore x a vol => [K "store"; LSp] ++ l_vol vol ++ [K x; OP ","; LSp; K a]
   | RAlloc t n s al => l_assign t n ++ [K "alloc"; LSp; NI s; LSp; K "bytes"; LSp; K "aligned";
                                         LSp; K "at"; LSp; NI al]
   | RAddrOf t n a => l_assign t n ++ [OP "&"; K a]
@@ -216,7 +227,8 @@ Definition l_instr (i : rinstr) : list ltok :=
   | RCopyBlob d s n => [K "memcpy"; OP "("; K d; OP ","; LSp; K s; OP ","; LSp; NI n; OP ")"]
   | RPhi t n ins => l_assign t n ++ [K "phi"; LSp]
                     ++ join_comma (map (fun p => [K (fst p); OP ":"; LSp; K (snd p)]) ins)
-  | RUndef n => [K n; LSp; OP "="; LSp; K "undefined"]
+  | RUndef None n => [K n; LSp; OP "="; LSp; K "undefined"]
+  | RUndef (Some t) n => l_assign t n ++ [K "undefined"]
   | RCallF t n c args => l_assign t n ++ [K "call"; LSp; K c] ++ l_args args
   | RCallP c args => [K "call"; LSp; K c] ++ l_args args
   | RJump b => [K "jmp"; LSp; K b]
@@ -444,6 +456,13 @@ Definition peek_rot (ts : list token) : option binop :=
   | _ => None
   end.
 
+(* Reader.parse_volatile_value_ref: ['volatile'] name; the word is the marker only when another
+   identifier follows (a value may itself be called volatile) *)
+Definition parse_vol_ref (ts : list token) : result (bool * string * list token) :=
+  '(n, ts1) <- parse_id ts ;;
+  if String.eqb n "volatile" && peek_is "ID" ts1 && fx_volatile c
+  then '(n2, ts2) <- parse_id ts1 ;; Ok (true, n2, ts2)
+  else Ok (false, n, ts1).
 Definition parse_assignment (ts : list token) : result (rinstr * list token) :=
   '(t, ts) <- parse_type ts ;;
   '(n, ts) <- parse_id ts ;;
@@ -463,13 +482,14 @@ Definition parse_assignment (ts : list token) : result (rinstr * list token) :=
           else if String.eqb a "alloc" then
             '(s, ts2) <- parse_integer ts1 ;; ts3 <- parse_baa ts2 ;; '(al, ts4) <- parse_integer ts3 ;;
             Ok (RAlloc t n s al, ts4)
-          else if String.eqb a "load" then '(x, ts2) <- parse_id ts1 ;; Ok (RLoad t n x, ts2)
+          else if String.eqb a "load" then '(vol, x, ts2) <- parse_vol_ref ts1 ;; Ok (RLoad t n x vol, ts2)
           else if String.eqb a "cast" then '(x, ts2) <- parse_id ts1 ;; Ok (RCast t n x, ts2)
           else if String.eqb a "call" then
             '(f, ts2) <- parse_id ts1 ;; '(args, ts3) <- parse_parens parse_id ts2 ;;
             Ok (RCallF t n f args, ts3)
           else if String.eqb a "literal" then
             match ts1 with TStr h :: ts2 => Ok (RLit t n h, ts2) | _ => perr end
+          else if String.eqb a "undefined" && fx_undef c then Ok (RUndef (Some t) n, ts1)
           else if fx_float c && (String.eqb a "inf" || String.eqb a "nan") then
             Ok (RConst t n (RFloat a), ts1)
           else Internal NotImplemented
@@ -496,11 +516,15 @@ Definition parse_statement (ts : list token) : result (rinstr * list token) :=
        match op with Some o => Ok (RCJump a o b y n, ts) | None => Internal ValueErrorI end
      else if at_keyword "return" ts then '(a, ts) <- parse_id (tl ts) ;; Ok (RReturn a, ts)
      else if at_keyword "store" ts then
-       '(x, ts) <- parse_id (tl ts) ;; ts <- consume_op "," ts ;; '(a, ts) <- parse_id ts ;;
-       Ok (RStore x a, ts)
+       '(vol, x, ts) <- parse_vol_ref (tl ts) ;; ts <- consume_op "," ts ;; '(a, ts) <- parse_id ts ;;
+       Ok (RStore x a vol, ts)
      else if at_keyword "exit" ts then Ok (RExit, tl ts)
      else if at_keyword "call" ts then
        '(f, ts) <- parse_id (tl ts) ;; '(args, ts) <- parse_parens parse_id ts ;; Ok (RCallP f args, ts)
+     else if at_keyword "memcpy" ts && fx_copyblob c then
+       ts <- consume_op "(" (tl ts) ;; '(d, ts) <- parse_id ts ;; ts <- consume_op "," ts ;;
+       '(s, ts) <- parse_id ts ;; ts <- consume_op "," ts ;; '(n, ts) <- parse_integer ts ;;
+       ts <- consume_op ")" ts ;; Ok (RCopyBlob d s n, ts)
      else parse_assignment ts) ;;
   ts <- consume_op ";" ts ;; Ok (i, ts).
 
@@ -757,16 +781,16 @@ Definition resolve_instr (i : rinstr) (st : tst) : result tst :=
       finish_val c (IUnop v n t o a') st1
   | RCast t n a =>
       let '((a', _), st1) := find_value c a Ptr st in finish_val c (ICast v n t a') st1
-  | RLoad t n a =>
+  | RLoad t n a vol =>
       let '((a', ta), st1) := find_value c a Ptr st in
       _ <- check (ty_eqb ta Ptr) AssertionError ;;
       _ <- check (negb (ty_is_blob t)) ValueErrorI ;;
-      finish_val c (ILoad v n t a' false) st1
-  | RStore x a =>
+      finish_val c (ILoad v n t a' vol) st1
+  | RStore x a vol =>
       let '((x', _), st1) := find_value c x Ptr st in
       let '((a', ta), st2) := find_value c a Ptr st1 in
       _ <- check (ty_eqb ta Ptr) TypeError ;;
-      add_ins (IStore x' a' false) st2
+      add_ins (IStore x' a' vol) st2
   | RAlloc _ n s al =>
       _ <- check (negb (s =? 0)) ValueErrorI ;;
       finish_val c (IAlloc v n s al) st
@@ -802,7 +826,12 @@ Definition resolve_instr (i : rinstr) (st : tst) : result tst :=
   | RReturn a =>
       let '((a', _), st1) := find_value c a Ptr st in add_ins (IReturn a') st1
   | RExit => add_ins IExit st
-  | RCopyBlob _ _ _ | RUndef _ => Internal NotImplemented   (* never produced by [parse] *)
+  | RCopyBlob d s n =>
+      let '((d', _), st1) := find_value c d Ptr st in
+      let '((s', _), st2) := find_value c s Ptr st1 in
+      add_ins (ICopyBlob d' s' n) st2
+  | RUndef (Some t) n => finish_val c (IUndef v n t) st
+  | RUndef None _ => Internal NotImplemented   (* never produced by [parse] *)
   end.
 Fixpoint resolve_instrs (l : list rinstr) (st : tst) : result tst :=
   match l with [] => Ok st | i :: r => st1 <- resolve_instr i st ;; resolve_instrs r st1 end.
@@ -900,20 +929,20 @@ Definition sort_phi (f : func) (ins : list (bid * vref)) : list (bid * vref) :=
                    | [] => [p]
                    | q :: r => if pair_leb (key p) (key q) then p :: l else q :: ins r
                    end) acc) [] ins.
-Definition norm_instr (f : func) (i : instr) : instr :=
+Definition norm_instr (c : tcfg) (f : func) (i : instr) : instr :=
   match i with
-  | ILoad v n t a _ => ILoad v n t a false
-  | IStore x a _ => IStore x a false
+  | ILoad v n t a vol => ILoad v n t a (fx_volatile c && vol)
+  | IStore x a vol => IStore x a (fx_volatile c && vol)
   | IPhi v n t ins => IPhi v n t (sort_phi f ins)
   | _ => i
   end.
-Definition norm_func (f : func) : func :=
+Definition norm_func (c : tcfg) (f : func) : func :=
   mk_func (f_name f) (f_binding f) (f_ret f) (f_params f)
-          (map (fun k => mk_block (b_id k) (b_name k) (map (norm_instr f) (b_ins k))) (f_blocks f)).
+          (map (fun k => mk_block (b_id k) (b_name k) (map (norm_instr c f) (b_ins k))) (f_blocks f)).
 Definition norm_var (c : tcfg) (g : gvar) : gvar :=
   mk_gvar (g_name g) (g_binding g) (g_amount g) (g_align g) (if fx_init c then g_value g else None).
 Definition norm (c : tcfg) (m : modul) : modul :=
-  mk_modul (m_name m) (m_externals m) (map (norm_var c) (m_vars m)) (map norm_func (m_funcs m)).
+  mk_modul (m_name m) (m_externals m) (map (norm_var c) (m_vars m)) (map (norm_func c) (m_funcs m)).
 
 (* association-list instances of the float parameters (used by the check's cases) *)
 Fixpoint fr_of (l : list (Z * string)) (b : Z) : string :=
@@ -1023,13 +1052,13 @@ Definition rlex_instr (c : tcfg) (i : rinstr) : bool :=
   | RConst _ n k => is_ident n && rlex_cst c k
   | RBinop _ n a _ b => is_ident n && is_ident a && is_ident b
   | RUnop _ n o a => is_ident n && is_ident a && match o with Inv => fx_ops c | Neg => true end
-  | RCast _ n a | RLoad _ n a | RAddrOf _ n a => is_ident n && is_ident a
-  | RStore x a => is_ident x && is_ident a
+  | RCast _ n a | RLoad _ n a _ | RAddrOf _ n a => is_ident n && is_ident a
+  | RStore x a _ => is_ident x && is_ident a
   | RAlloc _ n _ _ => is_ident n
   | RLit _ n h => is_ident n && all_chars str_char_ok h
   | RCopyBlob d s _ => is_ident d && is_ident s
   | RPhi _ n ins => is_ident n && forallb (fun p => is_ident (fst p) && is_ident (snd p)) ins
-  | RUndef n => is_ident n
+  | RUndef _ n => is_ident n
   | RCallF _ n f args => is_ident n && is_ident f && forallb is_ident args
   | RCallP f args => is_ident f && forallb is_ident args
   | RJump b => is_ident b
@@ -1059,7 +1088,10 @@ Definition rprintable_instr (c : tcfg) (i : rinstr) : bool :=
   | RUnop _ _ o _ => match o with Inv => fx_ops c | Neg => true end
   | RConst _ _ (RFloat s) => if String.eqb s "inf" || String.eqb s "nan" then fx_float c else true
   | RPhi _ _ ins => negb (Nat.eqb (List.length ins) 0)
-  | RCopyBlob _ _ _ | RUndef _ => false
+  | RCopyBlob _ _ _ => fx_copyblob c
+  | RUndef (Some _) _ => fx_undef c
+  | RUndef None _ => false
+  | RLoad _ _ _ vol | RStore _ _ vol => negb vol || fx_volatile c
   | _ => true
   end.
 Definition rprintable_item (c : tcfg) (x : ritem) : bool :=
@@ -1143,7 +1175,7 @@ Definition printable_func (c : tcfg) (fr : Z -> string) (fp : string -> option Z
   && forallb (fun k => is_ident (b_name k)) (f_blocks f)
   && forallb (fun d => is_ident (def_name d)) (func_defs f)
   && forallb (fun i => ctor_ok f i && instr_floats_ok c fr fp i) (func_instrs f)
-  && forallb (rprintable_instr c) (map (erase_instr fr f) (func_instrs f))
+  && forallb (rprintable_instr c) (map (erase_instr fr c f) (func_instrs f))
   && ((fx_ru_generic c && fx_ru_phi c && fx_ru_call c) || no_fwd_double 1 (func_instrs f)).
 Definition printable (c : tcfg) (fr : Z -> string) (fp : string -> option Z) (m : modul) : bool :=
   print_ok c m && rlex_ok c (erase fr c m) && is_ident (m_name m)
